@@ -201,6 +201,42 @@ def lemmas_for(lemmas, expr):
                   pats=l.pats, hints=[r(h.text) for h in l.hints]) for l in lemmas]
 
 
+# Order independence (C17, last clause): the verdicts of both checks are functions of same_width / once / twice / foreign; each of
+# these is invariant under a permutation of the unitary alignments.  Stated over explicit arrays (width, name, is-None, unit per slot)
+# for two alignments related by a bijection P (inverse Q) of their positions, with the same formulas as the CHECK macros.
+from pyvc.contract import SORTS as _SORTS   # noqa: E402
+import z3 as _z3   # noqa: E402
+_SORTS.setdefault("A2Bool", _z3.ArraySort(_z3.IntSort(), _z3.ArraySort(_z3.IntSort(), _z3.BoolSort())))
+_SORTS.setdefault("A2Unit", _z3.ArraySort(_z3.IntSort(), _z3.ArraySort(_z3.IntSort(), _SORTS["Unit"])))
+
+
+def _arr_macros(k):
+    W, N, E, U = f"W{k}", f"N{k}", f"E{k}", f"U{k}"
+    return [Macro(f"inr{k}", ["t", "i"], f"0 <= t and t < n and 0 <= i and i < {W}[t]"),
+            Macro(f"hold{k}", ["t", "i", "a", "u"], f"{N}[t][i] == a and not {E}[t][i] and {U}[t][i] == u"),
+            Macro(f"once{k}", ["a", "u"], f"exists([t, i], inr{k}(t, i) and hold{k}(t, i, a, u))"),
+            Macro(f"twice{k}", ["a", "u"], f"exists([t1, i1, t2, i2], inr{k}(t1, i1) and inr{k}(t2, i2) and (t1 != t2 or i1 != i2) and "
+                                           f"hold{k}(t1, i1, a, u) and hold{k}(t2, i2, a, u))"),
+            Macro(f"allw{k}", ["w"], f"forall(t, 0, n, {W}[t] == w)")]
+
+
+PERM_BINDERS = [("n", "Int"), ("P", "AInt"), ("Q", "AInt")] + [(f"{x}{k}", srt) for k in (1, 2) for x, srt in
+                                                                 (("W", "AInt"), ("N", "A2Real"), ("E", "A2Bool"), ("U", "A2Unit"))]
+PERM_HYPS = ["n >= 1",
+             "forall(t, 0, n, 0 <= P[t] and P[t] < n and Q[P[t]] == t and 0 <= Q[t] and Q[t] < n and P[Q[t]] == t)",
+             "forall(t, 0, n, W2[t] == W1[P[t]] and W1[t] >= 0 and forall(i, 0, W2[t], N2[t][i] == N1[P[t]][i] and E2[t][i] == E1[P[t]][i] and "
+             "U2[t][i] == U1[P[t]][i]))"]
+ORDER_LEMMAS = [
+    Lemma("once_is_order_independent", "once1(a, u) == once2(a, u)", binders=PERM_BINDERS + [("a", "Real"), ("u", "Unit")], hyps=PERM_HYPS,
+          hints=["forall([t, i], implies(inr1(t, i) and hold1(t, i, a, u), inr2(Q[t], i) and hold2(Q[t], i, a, u)))",
+                 "implies(once1(a, u), once2(a, u))", "implies(once2(a, u), once1(a, u))"]),
+    Lemma("twice_is_order_independent", "twice1(a, u) == twice2(a, u)", binders=PERM_BINDERS + [("a", "Real"), ("u", "Unit")], hyps=PERM_HYPS,
+          hints=["implies(twice1(a, u), twice2(a, u))", "implies(twice2(a, u), twice1(a, u))"]),
+    Lemma("same_width_is_order_independent", "allw1(W1[0]) == allw2(W2[0])", binders=PERM_BINDERS, hyps=PERM_HYPS,
+          hints=["implies(allw1(W1[0]), allw2(W2[0]))", "implies(allw2(W2[0]), allw1(W1[0]))"]),
+]
+
+
 def check_contract(variant, cexpr, extra_requires):
     """Alignment.check: returns normally iff every (annotator, unit) of the continuum is held by exactly one slot; SetPartitionError
     otherwise (ValueError for unitary alignments of unequal widths, IndexError for an alignment without unitary alignment)"""
@@ -208,8 +244,8 @@ def check_contract(variant, cexpr, extra_requires):
     part_ok = f"forall([(a, Real), (u, Unit)], implies(Us({C})[a][u], once(a, u) and not twice(a, u)))"
     contract(F + "Alignment.check#" + variant,
              params={"self": ALIGN(), "continuum": OptObjT(CONT())}, modifies=[],
-             macros=CHECK_MACROS + [Macro("C", [], C)],
-             lemmas=[],
+             macros=CHECK_MACROS + [Macro("C", [], C)] + (_arr_macros(1) + _arr_macros(2) if variant == "given" else []),
+             lemmas=ORDER_LEMMAS if variant == "given" else [],
              locals={"alignment_tuples": PairT(), "continuum_tuples": PairT()},
              ghost_vars={"TOF": ("AInt", None), "IOF": ("AInt", None), "NAT": ("Int", "0")},
              requires=extra_requires + [
